@@ -74,6 +74,11 @@ func genC22(tp *simkit.Tape, client, idx int) c22stmt {
 	case c <= 12:
 		lock := []string{"for update", "for share", "lock in share mode", "for update nowait", "for update skip locked", "for share nowait", "for share skip locked"}[c-7+tp.Choose(1)]
 		st.sql, st.class, st.mustMaster = "select * from t_plain where id = "+k+" "+lock, "locking-read:"+lock, true
+		if tp.Chance(1, 5) {
+			// a double minus that is arithmetic, not a comment (no blank behind it), in front of the lock clause
+			st.sql = "select * from t_plain where id = " + k + " and a > 5--2 " + lock
+			st.class = "locking-read-after-double-minus:" + lock
+		}
 	case c == 13:
 		st.sql, st.class, st.mustMaster = "select "+hintForm(tp)+" * from t_plain where id = "+k, "master-hint", true
 	case c == 14:
